@@ -143,6 +143,10 @@ double RandomTools::qNorm(double prob, double mu, double sigma)
 double RandomTools::incompleteGamma (double x, double alpha, double ln_gamma_alpha)
 {
   size_t i;
+  // Both expansions below converge within a few thousand terms for any usable shape; for a huge
+  // one (alpha >= 2^53: alpha + 1 == alpha) they never do.
+  size_t nbTerms = 0;
+  const size_t maxNbTerms = 100000000;
   double p = alpha, g = ln_gamma_alpha;
   double accurate = 1e-8, overflow = 1e30;
   double factor, gin = 0, rn = 0, a = 0, b = 0, an = 0, dif = 0, term = 0;
@@ -159,6 +163,8 @@ double RandomTools::incompleteGamma (double x, double alpha, double ln_gamma_alp
   /* (1) series expansion */
   gin = 1;  term = 1;  rn = p;
 l20:
+  if (++nbTerms > maxNbTerms)
+    throw Exception("RandomTools::incompleteGamma. The series expansion does not converge (alpha = " + TextTools::toString(alpha) + ").");
   rn++;
   term *= x / rn;   gin += term;
 
@@ -172,6 +178,8 @@ l30:
   pn[0] = 1;  pn[1] = x;  pn[2] = x + 1;  pn[3] = x * b;
   gin = pn[2] / pn[3];
 l32:
+  if (++nbTerms > maxNbTerms)
+    throw Exception("RandomTools::incompleteGamma. The continued fraction does not converge (alpha = " + TextTools::toString(alpha) + ").");
   a++;  b += 2;  term++;   an = a * term;
   for (i = 0; i < 2; i++)
   {
